@@ -325,6 +325,13 @@ func (c *Case) ModelLine() string {
 
 // ---- observables ------------------------------------------------------------------------------
 
+// NullObs is an entry of the model's Spec.nulls: a null the reference semantics leaves visible in
+// the data because something failed, with the field errors that can explain it.
+type NullObs struct {
+	Path  string
+	Cands []ErrObs
+}
+
 type ErrObs struct {
 	Path string `json:"path"` // JSON array text
 	Msg  string `json:"msg"`
@@ -348,10 +355,11 @@ type Observed struct {
 	Stuck    bool     `json:"stuck,omitempty"` // the idle handler was called with nothing left to fulfil
 	Widths   []int    `json:"-"`               // outstanding promises at each idle round (real side only)
 	// The Lean reference semantics of the request (model side only): Spec.data, Spec.required, Spec.errsF.
-	HasSpec      bool     `json:"-"`
-	SpecData     string   `json:"-"`
-	SpecRequired []ErrObs `json:"-"`
-	SpecAll      []ErrObs `json:"-"`
+	HasSpec      bool      `json:"-"`
+	SpecData     string    `json:"-"`
+	SpecRequired []ErrObs  `json:"-"`
+	SpecAll      []ErrObs  `json:"-"`
+	SpecNulls    []NullObs `json:"-"`
 	// Abandoned lists the promises whose result the executor never received (real side only):
 	// delivered but left in the channel, or still outstanding when execution returned.
 	Abandoned []string `json:"abandoned,omitempty"`
@@ -411,7 +419,7 @@ func ParseModelReply(line string) (*Observed, error) {
 		}
 		o.Events = append(o.Events, Event{Kind: e.List[1].Atom, Path: e.List[2].Atom})
 	}
-	if len(x.List) == 7 && len(x.List[6].List) == 4 {
+	if len(x.List) == 7 && len(x.List[6].List) >= 4 {
 		sp := x.List[6].List
 		o.HasSpec = true
 		o.SpecData = sp[1].Atom
@@ -423,6 +431,20 @@ func ParseModelReply(line string) (*Observed, error) {
 		for _, e := range sp[3].List {
 			if len(e.List) == 3 {
 				o.SpecAll = append(o.SpecAll, ErrObs{Path: e.List[1].Atom, Msg: e.List[2].Atom})
+			}
+		}
+		if len(sp) >= 5 {
+			for _, n := range sp[4].List {
+				if len(n.List) != 3 {
+					return nil, fmt.Errorf("bad null entry in %q", line)
+				}
+				no := NullObs{Path: n.List[1].Atom}
+				for _, e := range n.List[2].List {
+					if len(e.List) == 3 {
+						no.Cands = append(no.Cands, ErrObs{Path: e.List[1].Atom, Msg: e.List[2].Atom})
+					}
+				}
+				o.SpecNulls = append(o.SpecNulls, no)
 			}
 		}
 	}
